@@ -89,14 +89,14 @@ class C12(Prop):
                   "Header functions (function level), the real poll_recv_trailers over an in-memory stream, and the real "
                   "server accept+resolve_request / client send_request+recv_response over a private 160-line in-memory "
                   "transport, against the model on identical case lines; tools/extract.py regenerates the Protocol table, the "
-                  "error codes used at the three call sites and three source decisions the model switches on; http crate: four "
+                  "error codes used at the three call sites and four source decisions the model switches on; http crate: four "
                   "validators modelled concretely (all 256 single-byte names/values/methods and digit triples enumerated against "
                   "the real crate), Scheme/Authority/PathAndQuery/Uri::builder abstract with four listed laws, instantiated per "
                   "case by the real crate's verdicts carried on the case line and checked against the laws")
     rule = ("cases: every alphabet name x value in request/response/trailer context, all 256 single-byte names (4 positions incl. "
             "a 65-byte name) and values, all 256 single-byte methods, status digit triples, scheme/authority/path/protocol "
             "alphabets, presence/absence/duplication/contradiction of the 7 special fields (3^7 combinations + orderings), "
-            "CONNECT variants, host/authority contradictions, field counts around 24576, seeded random lists; every second "
+            "CONNECT variants, host/authority contradictions, field counts around and far beyond 24576 (no limit), 24576 / 24577 distinct names (the HeaderMap limit), seeded random lists; every second "
             "request/response case (thorough: every one) again through the real server/client call site; sent side: methods x "
             "URI shapes x protocol x maps; non-trivial = implementation result is ok/reject/refused/sent "
             "(not bad-op/bad-verdicts/unbuildable/panic/law-violated)")
@@ -106,7 +106,10 @@ class C12(Prop):
                "qpack::encode_stateless/decode_stateless round trip inside the trailers engine (C11)"]
     assumptions = ["HttpLaws: Authority::from_str(\"\") fails; Authority::as_str is the input; Uri::builder with an empty authority "
                    "fails; the builder parses its authority with Authority's parser (each checked on every verdict table)",
-                   "HeaderMap::try_append does not fail once try_with_capacity(n) succeeded for n appends (no hash-flooding growth)",
+                   "http::HeaderMap::try_append fails exactly when it is called on a map that already holds 24576 distinct names "
+                   "(try_reserve_one runs before the name is looked up; index table of at most 2^15 slots, 3/4 usable), whatever "
+                   "the name; any number of values per name; the hash-flooding defence (yellow/red danger states after probe "
+                   "sequences of >= 512 slots) is not modelled; checked by boundary cases on the real crate",
                    "caller-built HeaderMap names satisfy HeaderName's invariant (no ':'), values HeaderValue's",
                    "R-12: duplicated pseudo-header fields, several Host fields, pseudo-header fields after regular ones, "
                    "request pseudo-fields in responses and vice versa, missing :scheme/:path are not demanded by the property text"]
@@ -301,18 +304,41 @@ class C12(Prop):
         recv("resp", RESP_BASE + [(b"set-cookie", b"a"), (b"x", b"1"), (b"set-cookie", b"b"), (b"y", b"2"), (b"x", b"3")])
         recv("trl", [(b"b", b"1"), (b"a", b"2"), (b"b", b"3"), (b"a", b"4"), (b"c", b"5")])
 
-        # field counts around the HeaderMap capacity limit (24576 + 24576/3 = 2^15)
-        for n in (24575, 24576, 24577, 24578, 32768, 32769, 49153, 100000):
+        # field counts: no limit of their own (D-01, repaired: a map that cannot be pre-sized for
+        # 24577 or more fields, 24576 + 24576/3 = 2^15, starts empty); pseudo-header fields are not
+        # stored in the map, values under one name may be any number
+        for n in (24575, 24576, 24577, 24578, 32769) + ((49153,) if big else ()):
             recv("req", [(M, b"GET", n)])
             recv("resp", [(ST, b"200", n)])
             recv("trl", [(b"x", b"1", n)])
         recv("req", REQ_MIN + [(b"x", b"1", 24574)])
         recv("req", REQ_MIN + [(b"x", b"1", 24575)])
+        recv("req", REQ_BASE + [(b"x", b"1", 24573)])       # D-01 witness: 24577 fields
+        recv("req", REQ_BASE + [(b"x", b"1", 30000)])
         recv("req", [(b"A", b"1")] + [(b"x", b"1", 24576)])
         recv("req", [(b"x", b"1", 24576), (b"A", b"1")])
         recv("trl", [(ST, b"200")] + [(b"x", b"1", 24576)])
         recv("resp", RESP_BASE + [(b"x", b"\x00", 24576)])
+        # the limit of http::HeaderMap itself: 24576 distinct names; `try_append` fails when the map
+        # already holds that many, whatever the name appended (names chosen to differ early)
+        abc = "abcdefghijklmnopqrstuvwxyz"
+
+        def dname(i):
+            return (abc[i % 26] + abc[(i // 26) % 26] + abc[(i // 676) % 26] + abc[i // 17576]).encode()
+
+        def distinct(k):
+            return [(dname(i), b"y") for i in range(k)]
+        recv("trl", distinct(24576))                                  # handed over
+        recv("trl", distinct(24577))                                  # one name too many: refused
         if big:
+            recv("trl", distinct(24576) + [(dname(0), b"z")])          # a known name, but the map is full: refused
+            recv("trl", distinct(24576) + [(dname(24575), b"z")])
+            recv("trl", [(dname(0), b"z")] + distinct(24576))          # the same fields, the repeat first: handed over
+            recv("trl", distinct(24575) + [(b"x", b"1", 30000)])       # the 24576th name twice: refused
+            recv("trl", distinct(24575) + [(dname(7), b"1", 30000)])   # 24575 names, many values: handed over
+            recv("req", REQ_BASE + distinct(24576))
+            recv("req", REQ_BASE + distinct(24577))
+            recv("resp", RESP_BASE + distinct(24576) + [(dname(3), b"w")])
             recv("resp", RESP_BASE + [(("n%d" % i).encode(), b"v") for i in range(12000)])
 
         # seeded random lists
